@@ -16,6 +16,9 @@ MAJORS = (0, 1, 2, 3, 4, 2**32 - 1)
 MINORS = (0, 9, 10, 11)
 EXPECTED = "mydev"
 ORDERS = ("two-chunks", "one-chunk", "bytewise", "connect-first", "verdict-twice", "hello-twice", "one-chunk+DR", "then-DR")
+# the answer is in the socket in time, but the loop is busy elsewhere and reads it only in the iteration of the request's deadline (30 s) or
+# later: arrived data is processed before the timers that became due meanwhile, so the answer - not a time-out - decides
+STALLED_ORDERS = ("one-chunk@30", "one-chunk@45")
 NOISE_NAMES = ("absent", "equal", "different", "empty", "case", "not-utf8", "equal+mac", "different+mac")  # +mac: a further field behind the name
 HELLO_NAMES = ("empty", "equal", "other", "case", "longer")  # near misses: names are compared exactly
 
@@ -97,7 +100,7 @@ def one_case(c: dict[str, Any]) -> dict[str, Any]:
             plan: list[list[Any]]
             if order == "two-chunks":
                 plan = [[H]] + ([[CR]] if login else [])
-            elif order == "one-chunk":
+            elif order == "one-chunk" or order in STALLED_ORDERS:
                 plan = [[H] + ([CR] if login else [])]
             elif order == "one-chunk+DR":
                 # the device's (possibly rejecting) answer and its disconnect request share one chunk
@@ -127,6 +130,8 @@ def one_case(c: dict[str, Any]) -> dict[str, Any]:
                 deliver_deciding(ch)
                 continue
             w.io_chunk(sock, ch)
+            if c["order"] in STALLED_ORDERS:
+                w.loop.advance_to(w.loop.time() + float(c["order"].split("@")[1]))
             w.drain()
         w.drain()
         out = w.outcome("connect")
@@ -293,6 +298,17 @@ def cases(tier: str) -> list[dict[str, Any]]:
             continue  # nothing is specified for a device whose announced name is not text when no name is expected
         out.append({"noise": True, "noise_name": nn, "major": major, "minor": 10, "name": name, "expected": expected, "login": login,
                     "password": False, "invalid": invalid, "order": order})
+    for noise_flag in (False, True):
+        for nn, major, name, expected, login, invalid, order in itertools.product(
+            ("absent", "equal") if noise_flag else ("equal",), (1, 3), HELLO_NAMES, (False, True), (False, True), (False, True), STALLED_ORDERS
+        ):
+            if not login and invalid:
+                continue
+            cfg = {"noise": noise_flag, "major": major, "minor": 10, "name": name, "expected": expected, "login": login,
+                   "password": False, "invalid": invalid, "order": order}
+            if noise_flag:
+                cfg["noise_name"] = nn
+            out.append(cfg)
     # the caller cancels connect() 0..3 loop turns after the deciding bytes arrived (same-turn races between the answer and a timeout)
     for noise_flag in (False, True):
         for nn, major, name, expected, login, invalid, k in itertools.product(
